@@ -42,3 +42,32 @@ impl VFileIdBox {
 /// MLAStatus::from(Error): the real conversion is a total match (lib.rs:134); only its totality matters here
 #[verifier::external_body]
 pub fn vstatus_from(e: Error) -> (r: MLAStatus) { unimplemented!() }
+
+// ---- extraction: handing a member name to the caller's file callback
+/// the caller's `MlaFileCalbackRaw` (a C function pointer) and its context: opaque
+pub struct VFileCb { _p: u8 }
+#[derive(Clone, Copy)]
+pub struct VCtx { _p: u8 }
+/// `*const u8` into a Rust string: the bytes it points at
+pub struct VBytePtr { pub bytes: Ghost<Seq<u8>> }
+/// MaybeUninit<FileWriter> handed to the callback
+pub struct VFwSlot { _p: u8 }
+pub struct VFwPtr { _p: u8 }
+impl VFwSlot {
+    #[verifier::external_body]
+    pub fn as_mut_ptr(&mut self) -> (r: VFwPtr) { unimplemented!() }
+}
+/// what the callback answers for a given name (a function of the callback and of the bytes it is shown)
+pub uninterp spec fn cb_answer(cb: &VFileCb, name: Seq<u8>) -> i32;
+/// (file_callback)(context, ptr, len, out): the callee reads exactly `len` bytes at `ptr` as the member name -- never more than the
+/// string holds (memory safety), and its answer is for those bytes
+#[verifier::external_body]
+pub fn vcall_file_callback(cb: &VFileCb, context: VCtx, name: VBytePtr, name_len: usize, out: VFwPtr) -> (r: i32)
+    requires name_len <= name.bytes@.len(),
+    ensures r == cb_answer(cb, if name_len == name.bytes@.len() { name.bytes@ } else { name.bytes@.subrange(0, name_len as int) }),
+{ unimplemented!() }
+/// String::as_ptr / String::len (byte length)
+#[verifier::external_body]
+pub fn vstring_as_ptr(s: &String) -> (r: VBytePtr) ensures r.bytes@ == str_bytes(s@) { unimplemented!() }
+#[verifier::external_body]
+pub fn vstring_len(s: &String) -> (r: usize) ensures r == str_bytes(s@).len() { unimplemented!() }
